@@ -53,7 +53,6 @@ DEEP = FLAT_NESTED + [_deep("    x = " + "+".join(["1"] * n)) for n in (950, 100
 GAPS = [("\n" * a) + "from nada_dsl import *\n" + g * k + "def nada_main():\n    p = Party(name='P')\n" + g * k +
         "    a = SecretInteger(Input(name='a', party=p))\n" + g * k + "    return [Output(a, 'o', p)]\n" + g * b
         for g in ("\n", "   \n", "\t\n", " \r\n") for k in (30, 64, 400) for a, b in ((0, 0), (40, 70))]
-DEEP = DEEP + GAPS
 
 
 SIDE_EFFECT = "import os\nwith open(os.path.join({root!r}, 'EXECUTED-' + __name__ + '.marker'), 'a') as _f:\n    _f.write('x')\nprint('EXECUTED', __name__)\n"
@@ -222,7 +221,7 @@ def run(res, tier):
     n = 250 if tier == "quick" else 8000
     rng = R.make("C16")
     modes, outcomes, classes = {}, {}, set()
-    sources = [("corpus", s) for s in CORPUS] + [("deep", s) for s in DEEP] + [("zoo-entry", s) for s in pysrc.zoo_programs()]
+    sources = [("corpus", s) for s in CORPUS] + [("deep", s) for s in DEEP] + [("gap", s) for s in GAPS] + [("zoo-entry", s) for s in pysrc.zoo_programs()]
     n += len(sources) - len(CORPUS) - len(DEEP)
     while len(sources) < n + len(CORPUS) + len(DEEP):
         sources.append(pysrc.generate(rng))
@@ -233,7 +232,7 @@ def run(res, tier):
         buf = io.StringIO()
         with contextlib.redirect_stdout(buf):
             # (the watchdog is about termination, not speed: the deeply nested programs are slow to tokenise)
-            r = audit_run.run_strict(src, timeout=60 if mode == "deep" else 4)
+            r = audit_run.run_strict(src, timeout=60 if mode == "deep" else 10 if mode == "gap" else 4)
         if "EXECUTED" in buf.getvalue() and r["outcome"] == "ok":
             r["outcome"] = "runs-user-code"
         modes[mode] = modes.get(mode, 0) + 1
@@ -246,7 +245,7 @@ def run(res, tier):
                     "runs-user-code": f"the auditor executed code of the audited program: {r.get('executed')}"}[r["outcome"]]
             res.violation({"property": "C16", "kind": r["outcome"], "source": src, "exception": r.get("exc"),
                            "site": r.get("site"), "inner": r.get("inner"), "executed": r.get("executed")}, what[:300])
-            if len(res.violations) > 15:
+            if len(res.violations) > (3 if r["outcome"] == "loops" else 15):
                 break
         if len(samples) < 3 and mode in ("zoo", "corrupt"):
             samples.append({"mode": mode, "source": src[:500]})
